@@ -9,7 +9,13 @@ except Exception as _e:  # back end missing: the three C properties are then not
 
 # units named *_fn (one-level functional contracts with uninterpreted kernels) are still under construction:
 # they are registered only once listed in STABLE_FN
-STABLE_FN = set()
+STABLE_FN = {
+    # quick (each < 50 s alone; 65 s wall for all eight with -j 4)
+    "blake3_compress_in_place_fn", "blake3_compress_xof_fn", "blake3_hash_many_fn", "output_chaining_value_fn",
+    "output_root_bytes_fn", "compress_parents_parallel_fn", "blake3_hasher_finalize_seek_fn", "blake3_hasher_finalize_fn",
+    # thorough (2 - 6 min each)
+    "blake3_xof_many_fn", "blake3_hash_many_rows_fn", "blake3_hasher_finalize_seek_pending_fn",
+}
 
 
 def _units(prop, tier):
@@ -58,7 +64,13 @@ if _U:
                        "plus (thorough) one complete equivalence: the C portable compression function == the paper's",
         "uncovered": ["finalize_seek writes S[seek..seek+out_len] of the concatenated input (functional equality with the "
                       "spec / the Rust crate): not applicable with the installed contract verifiers",
-                      "a change that keeps memory safety and shapes but feeds wrong bytes/CV to a compression is not detected"],
+                      "units *_fn (cbmc/README.md, 'One-level functional contracts'): with the kernels as uninterpreted functions "
+                      "of ALL their value arguments, which bytes/counter/flags/CV go into which kernel call and where every result "
+                      "byte lands is decided one call level deep for the four dispatch functions (every ISA branch), "
+                      "output_chaining_value, output_root_bytes (every requested byte, unbounded), compress_parents_parallel and "
+                      "finalize (<= 3 stack entries); NOT for chunk_state_update, compress_chunks_parallel, hasher_merge_cv_stack / "
+                      "hasher_push_cv, the subtree recursion and update_base: a change there that keeps memory safety and shapes "
+                      "but feeds wrong bytes/CV to a compression is not detected"],
         "assumptions": ["see level_note"],
     }
     PROPS["C18"] = {
